@@ -124,6 +124,7 @@ PROGRAMS = [
     "{{ o | default: k }}|{{ o | size }}|{{ o | first }}|{{ o | last }}|{{ o | join: k }}|{{ o | json }}|{{ k | append: o }}|{{ o | slice: 0 }}|{{ o | concat: l | size }}|{{ o | reverse | size }}",
     "{% if o[k] %}T{% endif %}{% if o == k %}E{% endif %}{% if o contains k %}C{% endif %}{% case o[k] %}{% when probe %}W{% endcase %}{{ o[k] | upcase }}{{ 'a' if o[k] else 'b' }}",
     "{% include k %}",
+    "{{ k | escape: environment: o }}|{{ k | t: context: o }}|{{ k | strip_html: environment: o }}|{{ k | join: environment: o }}|{{ k | url_encode: environment: o, context: o }}",
     "{{ o | t: k }}|{{ k | t: o: o }}|{% translate o: o, k: k %}{{ o }}{{ k }}{% endtranslate %}|{{ o | date: k }}|{{ k | date: o }}",
 ]
 TEMPLATES = [ENV.from_string(s) for s in PROGRAMS]
@@ -146,7 +147,7 @@ def _render(t, data: dict, is_async: bool) -> str:
     timeout=300,
     shard={"p": list(range(len(PROGRAMS)))},
     covers="for every attribute name of the context objects used as path segment, filter argument, lambda body key, loop/tablerow drop key or include name: the secret held in a Python attribute never appears in the output (nor in an error message), and the only attributes read by name are protocol hooks",
-    bounds="10 programs (paths, first/last/size, map/where/reject/sort*/sum/uniq/compact/find/has, lambdas, for/tablerow, render/include/with/assign/capture, misc filters, conditions, include by name, translate/date) x 4 object shapes x ~90 names (dir(obj) incl. dunders + documented keys), sync and async",
+    bounds="11 programs (engine-injected keyword names context/environment supplied by the template, paths, first/last/size, map/where/reject/sort*/sum/uniq/compact/find/has, lambdas, for/tablerow, render/include/with/assign/capture, misc filters, conditions, include by name, translate/date) x 4 object shapes x ~90 names (dir(obj) incl. dunders + documented keys), sync and async",
     stubs=("context objects log attribute reads through __getattribute__",),
     grid=lambda: [(p, NAMES.index(n), s, a) for p in range(len(PROGRAMS)) for n in ("secret", "leak", "prop", "__class__", "__dict__", "title", "first", "__init__") for s in range(4) for a in (False, True)],
 )
